@@ -262,6 +262,7 @@ pub fn profile() -> Profile {
     p.p_mut = 30;
     p.max_txs = 5;
     p.max_steps = 10;
+    p.lead_blocks = 6;
     p
 }
 
@@ -275,7 +276,7 @@ pub fn run(ctx: &Ctx) -> (Outcome, String, Option<bool>) {
     let out = crate::runner::run_sharded(
         ctx,
         "histories",
-        ctx.scale(60, 900),
+        ctx.scale(160, 1600),
         move || crate::plan::arb_plan(&prof),
         |plan, st, shard| {
             st.eval();
